@@ -54,6 +54,8 @@ RULE = ('corpus programs (snippets covering every node type, generated programs,
         'identifier-bearing constructs (handler names, aliases, attributes, keywords, args, def / class names, targets, match '
         'captures, global / nonlocal names, type variables) whose OLD identifier is a piece of the keywords / text around it '
         '(`except OSError as s`), renamed. '
+        'CONSTANT-KIND FAMILY (every run): a Constant changed to another kind of literal (int, float, str, bytes, None, True, big int) in 13 contexts (attribute object, subscript, ** operands, unary, call, ...) x Constant parenthesised or not x '
+        'enclosing expression parenthesised or not. '
         'NON-MODULE ROOTS (every run): statement and expression roots with comments / lines around the node, unchanged / renamed / '
         'child replaced / second round; judged by CPython parse of the result, tokenize comments, identical source when unchanged. '
         'OPTIONAL-FIELD FAMILY (every run): 46 scripts adding / removing an optional field (MatchMapping.rest, handler name, MatchAs / '
@@ -606,8 +608,49 @@ def _opt_case(name, src, cls, field, val):
     return (src, fn, f'{cls.__name__}.{field}')
 
 
+# ---- deterministic family: Constant.value changed to another KIND of literal, in every context x parenthesisation -------------
+
+CONST_CTX = {
+    'attr': '{C}.real', 'attr2': '{C}.real.imag', 'subscr': '{C}[0]', 'powl': '{C} ** 2', 'powr': '2 ** {C}', 'neg': '-{C}',
+    'not': 'not {C}', 'call': 'f({C})', 'ifexp': '{C} if a else b', 'cmp': 'a < {C}', 'elt': '[{C}, 1]', 'mul': '{C} * x',
+    'callfn': '{C}(x)',
+}
+CONST_OLD = {'float': 1.5, 'str': 'ss', 'none': None, 'int': 7}
+CONST_NEW = {'int': 3, 'float': 2.5, 'str': 'tt', 'none': None, 'true': True, 'big': 10 ** 20, 'bytes': b'bb'}
+
+
+def _const_case(ctx, cpar, ppar, old, new):
+    c = repr(CONST_OLD[old])
+    e = CONST_CTX[ctx].replace('{C}', f'({c})' if cpar else c)
+    src = f'y = ({e}) + 2  # c' if ppar else f'y = {e}  # c'
+    marker = CONST_OLD[old]
+
+    def fn(a, FST):
+        for n in ast.walk(a):
+            if isinstance(n, ast.Constant) and type(n.value) is type(marker) and n.value == marker:
+                n.value = CONST_NEW[new]
+                n.kind = None
+                return
+        raise RuntimeError('no site')
+
+    return (src, fn, 'Constant.value')
+
+
 def _family():
     fam = {}
+    for ctx in CONST_CTX:
+        for cpar in (False, True):
+            for ppar in (False, True):
+                for old in CONST_OLD:
+                    for new in CONST_NEW:
+                        if type(CONST_OLD[old]) is type(CONST_NEW[new]) and CONST_OLD[old] == CONST_NEW[new]:
+                            continue
+                        case = _const_case(ctx, cpar, ppar, old, new)
+                        try:
+                            ast.parse(case[0])
+                        except SyntaxError:
+                            continue              # `7.real`: the marked source itself must be valid
+                        fam[f'const_{ctx}_{"c" if cpar else "-"}{"p" if ppar else "-"}_{old}_{new}'] = case
     for name, src, cls, field, val in OPT_TEMPLATES:
         fam[f'opt_{name}'] = _opt_case(name, src, cls, field, val)
     for seq in _arg_layouts():
